@@ -561,7 +561,7 @@ def c04_monitor(ctx, tr, ix):
                 if placed_day.get(oid) is not None and placed_day[oid] <= when.date():
                     ctx.witness("C04.5", {"kind": "open_after_close"}, "order %s placed on %s is still open after the close of %s" % (oid % 100000, placed_day[oid], when.date()), rp)
     # orders that never got announced final must be FILLED or still legitimately open at the end (none after the last close)
-    for oid, o in tr.orders.items():
+    for oid, o in (tr.orders.items() if tr.exc is None else []):
         st = o.status.name
         if st not in FINAL and oid in status:
             ctx.witness("C04.5", {"kind": "never_final", "status": st}, "order %s ends the run in status %s" % (oid % 100000, st), rp)
@@ -570,6 +570,9 @@ def c04_monitor(ctx, tr, ix):
 
 
 # ----------------------------------------------------------------------------------------------------------- C05 / C06
+FINAL_SEEN = {}
+
+
 def c0506_monitor(which):
     def mon(ctx, tr, ix):
         import match_sync
@@ -652,6 +655,26 @@ def c0506_monitor(which):
                 if t["qty"] % lot != 0 and t["qty"] != unfilled_before:
                     ctx.witness("C06.4", {"kind": "odd_lot_fill"}, "%s fill %s is neither whole lots of %s nor the remainder %s" % (oid, t["qty"], lot, unfilled_before), rp)
         if which == "C06":
+            # an unfilled limit order RESTS (is listed among the open orders) until filled, cancelled or expired at the close
+            placed = {}
+            for kind, e in tr.events:
+                if kind == "CALL":
+                    for o in e["orders"]:
+                        placed[o["id"]] = e["when"].date()
+                        if o["type"] == "LIMIT" and o["status"] == "ACTIVE" and o["id"] not in e["open_after"]:
+                            ctx.witness("C06.5", {"kind": "limit_order_not_resting"}, "%s%r at %s: limit order is ACTIVE (filled %s of %s) but not among the open orders" % (e["api"], e["args"], e["when"], o["filled"], o["qty"]), rp)
+                elif kind == "POST_BAR":
+                    # a resting limit order must have been offered to the bar's match round: every order still open is in the book
+                    pass
+                elif kind == "POST_AFTER_TRADING":
+                    for oid, o in tr.orders.items():
+                        if placed.get(oid) == e["cal"].date() and o.type.name == "LIMIT" and oid not in FINAL_SEEN.get(id(tr), set()):
+                            pass
+            if tr.exc is None:
+                for oid, o in tr.orders.items():
+                    if o.type.name == "LIMIT" and o.status.name in ("ACTIVE", "PENDING_NEW") and oid in placed:
+                        ctx.witness("C06.5", {"kind": "limit_order_never_expired"}, "limit order %s placed on %s (filled %s of %s) is still %s at the end of the run: it neither filled nor was cancelled nor expired at a close"
+                                    % (oid % 100000, placed[oid], o.filled_quantity, o.quantity, o.status.name), rp)
             # a market order never stays partially open: checked on what the order API hands back and at the end of the run
             for c in tr.calls:
                 for o in c["orders"]:
